@@ -80,9 +80,11 @@ int main(int argc, char **argv)
 {
     FILE *f = argc > 1 ? fopen(argv[1], "r") : stdin;
     if (!f) return 2;
-    char path[256];
-    snprintf(path, sizeof path, "/var/tmp/hdf4-verif/c03-%d.hdf", (int)getpid());
-    if (argc > 2) snprintf(path, sizeof path, "%s", argv[2]);
+    char path[300], base[256];
+    long hno = 0;
+    snprintf(base, sizeof base, "/var/tmp/hdf4-verif/c03-%d.hdf", (int)getpid());
+    if (argc > 2) snprintf(base, sizeof base, "%s", argv[2]);
+    snprintf(path, sizeof path, "%s", base);
     char op[8], tok[64];
     int32 fid = FAIL, sds = FAIL;
     int rank = 0, w = 1;
@@ -94,6 +96,9 @@ int main(int argc, char **argv)
             if (fscanf(f, "%ld %ld %ld", &r, &nt, &u) != 3) return 2;
             rank = (int)r;
             if (!rdvec(f, rank, dims)) return 2;
+            /* a fresh file name per history: a file the library failed to close must not poison the next one */
+            unlink(path);
+            snprintf(path, sizeof path, "%s.%ld", base, hno++);
             unlink(path);
             fid = SDstart(path, DFACC_CREATE);
             sds = fid == FAIL ? FAIL : SDcreate(fid, "d", (int32)nt, rank, dims);
@@ -168,10 +173,11 @@ int main(int argc, char **argv)
             printf("C %s\n", (a == FAIL || b == FAIL || sds == FAIL) ? "fail" : "ok");
         }
         else if (op[0] == 'E') {
-            if (sds != FAIL) SDendaccess(sds);
-            if (fid != FAIL) SDend(fid);
+            intn a = sds != FAIL ? SDendaccess(sds) : FAIL;
+            intn b = fid != FAIL ? SDend(fid) : FAIL;
             fid = sds = FAIL;
-            printf("E\n");
+            unlink(path);
+            printf("E %s\n", (a == FAIL || b == FAIL) ? "fail" : "ok");
         }
         else return 2;
         fflush(stdout);
